@@ -200,7 +200,7 @@ func (fr *Frame) load(st *State, ptr []string, t types.Type) []string {
 	lay := fr.l().layout(t)
 	out := make([]string, len(lay))
 	for i, s := range lay {
-		out[i] = fr.vc.loadComp(st, s, ptr[0], sAdd(ptr[1], sInt(int64(i))))
+		out[i] = fr.vc.loadComp(st, s, ptr[0], fr.vc.addSlot(ptr[1], i))
 	}
 	return out
 }
@@ -213,7 +213,7 @@ func (fr *Frame) store(st *State, ptr []string, t types.Type, v []string) {
 	lay := fr.l().layout(t)
 	for i, s := range lay {
 		if i < len(v) {
-			fr.vc.storeComp(st, s, ptr[0], sAdd(ptr[1], sInt(int64(i))), v[i])
+			fr.vc.storeComp(st, s, ptr[0], fr.vc.addSlot(ptr[1], i), v[i])
 		}
 	}
 }
@@ -231,6 +231,19 @@ func (fr *Frame) assumeTypeFacts(reach string, t types.Type, c []string, st *Sta
 func (fr *Frame) safetyObl(kind, reach, goal string, p token.Pos, what string) {
 	if goal == "true" {
 		return
+	}
+	if kind == "nil" && strings.HasPrefix(goal, "(not (= ") {
+		// allocation references are never nil; a reference already checked under the same reach
+		// condition needs no second obligation
+		ref := strings.TrimSuffix(strings.TrimPrefix(goal, "(not (= "), " 0))")
+		if fr.vc.isAlloc[ref] {
+			return
+		}
+		key := ref + "|" + reach
+		if fr.vc.nilChecked[key] {
+			return
+		}
+		fr.vc.nilChecked[key] = true
 	}
 	if !fr.safety {
 		// not under a nopanic contract: a panic is an allowed outcome; continue under the goal
@@ -488,6 +501,9 @@ func (fr *Frame) mergeStates(edges []string, sts []*State, tag string) State {
 			out.mem[s] = terms[0]
 			continue
 		}
+		if fr.mergeByRows(&out, s, k, tag, edges, terms) {
+			continue
+		}
 		m := fr.vc.freshRaw("M_"+k+"_"+tag, memSort(s))
 		for i := range sts {
 			fr.vc.assert(sImp(edges[i], sEq(m, terms[i])))
@@ -495,6 +511,84 @@ func (fr *Frame) mergeStates(edges []string, sts []*State, tag string) State {
 		out.mem[s] = m
 	}
 	return out
+}
+
+// mergeByRows: when the memories to be joined all derive from a common ancestor by
+// row/cell updates, the joined memory is *defined* as the ancestor with the touched
+// rows replaced by per-edge selected rows. This keeps the derivation chain walkable
+// (loads of untouched rows resolve to the ancestor at generation time).
+func (fr *Frame) mergeByRows(out *State, s Sort, k, tag string, edges []string, terms []string) bool {
+	vc := fr.vc
+	anc := map[string]int{}
+	cur := terms[0]
+	for d := 0; d < 200; d++ {
+		anc[cur] = d
+		l := vc.links[cur]
+		if l == nil || l.frame {
+			break
+		}
+		cur = l.parent
+	}
+	// deepest common ancestor
+	common := ""
+	best := -1
+	for a, d := range anc {
+		ok := true
+		for _, t := range terms[1:] {
+			c := t
+			found := false
+			for dd := 0; dd < 200; dd++ {
+				if c == a {
+					found = true
+					break
+				}
+				l := vc.links[c]
+				if l == nil || l.frame {
+					break
+				}
+				c = l.parent
+			}
+			if !found {
+				ok = false
+				break
+			}
+		}
+		if ok && (best < 0 || d < best) {
+			best = d
+			common = a
+		}
+	}
+	if common == "" {
+		return false
+	}
+	var touched []string
+	seen := map[string]bool{}
+	for _, t := range terms {
+		c := t
+		for c != common {
+			l := vc.links[c]
+			if !seen[l.ref] {
+				seen[l.ref] = true
+				touched = append(touched, l.ref)
+			}
+			c = l.parent
+		}
+	}
+	if len(touched) > 40 {
+		return false
+	}
+	sort.Strings(touched)
+	st := State{mem: map[Sort]string{s: common}, brk: out.brk}
+	for _, r := range touched {
+		row := vc.freshRaw("row_"+k+"_"+tag, "(Array Int "+k+")")
+		for i := range terms {
+			tmp := State{mem: map[Sort]string{s: terms[i]}}
+			vc.assert(sImp(edges[i], sEq(row, vc.rowOf(&tmp, s, r))))
+		}
+		vc.setRow(&st, s, r, row)
+	}
+	out.mem[s] = st.mem[s]
+	return true
 }
 
 // run executes the function body from the given entry state.
@@ -998,5 +1092,14 @@ func (fr *Frame) collectInvariants(li *loopInfo) {
 }
 
 func (fr *Frame) contractError(msg string) {
-	fr.vc.oblig("contract-error", "", "true", "false", token.Position{}, nil, msg)
+	// reported as a failed obligation, but nothing is assumed afterwards
+	vc := fr.vc
+	n := vc.counters["contract-error"]
+	vc.counters["contract-error"] = n + 1
+	var props []string
+	if fr.con != nil {
+		props = fr.con.Props
+	}
+	vc.obls = append(vc.obls, &Obl{Name: fmt.Sprintf("%s#contract-error%d", vc.funcName, n), Kind: "contract-error", Goal: "false", Reach: "true",
+		LineIdx: len(vc.lines), Text: msg, Func: vc.funcName, Props: props})
 }
